@@ -112,6 +112,15 @@ func c14Rounds(r *kit.Run, idx int64, rng *rand.Rand) {
 			}
 			vmu.Unlock()
 		}
+		// a quarter of the library-started rounds submit their work with a
+		// context that has already ended (a late submission after a shutdown):
+		// whatever is started with it is still accounted for
+		lctx := ctx
+		if mode >= 2 && rng.IntN(4) == 0 {
+			c, cc := context.WithCancel(ctx)
+			cc()
+			lctx = c
+		}
 		kit.WithProcs(procs, func() {
 			// raise the counter to N, then it is only lowered
 			switch mode {
@@ -128,15 +137,15 @@ func c14Rounds(r *kit.Run, idx int64, rng *rand.Rand) {
 			case 2:
 				for w := 0; w < workers; w++ {
 					w := w
-					wg.Launch(ctx, func(context.Context) { body(w) })
+					wg.Launch(lctx, func(context.Context) { body(w) })
 				}
 			case 3:
 				var next atomic.Int64
 				op := fun.Operation(func(context.Context) { body(int(next.Add(1) - 1)) })
 				if rng.IntN(2) == 0 {
-					wg.DoTimes(ctx, workers, op)
+					wg.DoTimes(lctx, workers, op)
 				} else {
-					op.StartGroup(ctx, wg, workers)
+					op.StartGroup(lctx, wg, workers)
 				}
 				if rng.IntN(3) == 0 {
 					// a count that is not positive starts nothing and leaves the
